@@ -135,7 +135,7 @@ namespace GeographicLib {
     void Forward(real lat, real lon, real h, real& x, real& y, real& z,
                  std::vector<real>& M)
       const  {
-      if (M.end() == M.begin() + dim2_) {
+      if (M.size() == dim2_) {
         real t[dim2_];
         IntForward(lat, lon, h, x, y, z, t);
         std::copy(t, t + dim2_, M.begin());
@@ -191,7 +191,7 @@ namespace GeographicLib {
     void Reverse(real x, real y, real z, real& lat, real& lon, real& h,
                  std::vector<real>& M)
       const {
-      if (M.end() == M.begin() + dim2_) {
+      if (M.size() == dim2_) {
         real t[dim2_];
         IntReverse(x, y, z, lat, lon, h, t);
         std::copy(t, t + dim2_, M.begin());
